@@ -428,6 +428,10 @@ func lexInsideAction(l *lexer) stateFn {
 			itemBool != l.lastType &&
 			itemField != l.lastType &&
 			itemChar != l.lastType &&
+			itemRightParen != l.lastType &&
+			itemRightBrackets != l.lastType &&
+			itemNil != l.lastType &&
+			itemUnderscore != l.lastType &&
 			itemTrans != l.lastType {
 			l.backup()
 			return lexNumber
@@ -445,6 +449,10 @@ func lexInsideAction(l *lexer) stateFn {
 			itemBool != l.lastType &&
 			itemField != l.lastType &&
 			itemChar != l.lastType &&
+			itemRightParen != l.lastType &&
+			itemRightBrackets != l.lastType &&
+			itemNil != l.lastType &&
+			itemUnderscore != l.lastType &&
 			itemTrans != l.lastType {
 			l.backup()
 			return lexNumber
